@@ -164,3 +164,11 @@ PROP_INFO["X_BFD"] = dict(X); SUITES["X_BFD"] = {"quick": [dict(_B)], "thorough"
 PROP_INFO["C19"]["real"] = PROP_INFO["C19"]["real"] + ["pkg/server bfd_server.go / bfd_peer.go, pkg/packet/bfd", "pkg/server zclient.go, pkg/zebra"]
 PROP_INFO["C19"]["stub"] = PROP_INFO["C19"]["stub"] + ["remote BFD speakers (independent RFC 5880 codec and state machine) over simulated datagram sockets (loss, duplication, delay/reordering)", "zebra daemon (independent ZAPI framing)"]
 PROP_INFO["C19"]["assumptions"] = [a.replace("BFD, Route Mirroring", "Route Mirroring") for a in PROP_INFO["C19"]["assumptions"]]
+
+# ---- collide family: two simultaneous transport connections, RFC 4271 6.8 / RFC 6286 collision resolution (C07)
+ALL_FAMILIES += [("collide", "")]
+_CO = {"family": "collide", "mode": "", "share": 1}
+SUITES["C07"]["quick"] += [dict(_CO)]
+SUITES["C07"]["thorough"] += [dict(_CO)]
+SUITES["C20"]["thorough"] += [dict(_CO)]
+PROP_INFO["X_COLLIDE"] = dict(X); SUITES["X_COLLIDE"] = {"quick": [dict(_CO)], "thorough": [dict(_CO)]}
